@@ -13,21 +13,21 @@ LEVEL_FOR_PAT = {"any": 0, "nomix": 1, "altld": 64, "althq": 66}
 TWO32 = 1 << 32
 
 ALL_CFGS = [
-    {"prof": p, "ver": v, "pat": pat, "fields": f}
-    for p in ("LD", "HQ")
+    {"prof": p, "ver": v, "pat": pat, "fields": f, "sx": (1 if (i + j + v) % 2 else 2)}
+    for i, p in enumerate(("LD", "HQ"))
     for v in (1, 2, 3)
-    for pat in ("any", "nomix", "altld", "althq")
+    for j, pat in enumerate(("any", "nomix", "altld", "althq"))
     for f in (False, True)
 ]
 # every value of every dimension + the interactions known to matter (fields x fragments, no-mix x fragments,
 # version exception, alternating patterns with their profile)
 QUICK_CFGS = [
-    {"prof": "HQ", "ver": 3, "pat": "nomix", "fields": True},
-    {"prof": "LD", "ver": 3, "pat": "any", "fields": False},
-    {"prof": "HQ", "ver": 2, "pat": "althq", "fields": False},
-    {"prof": "LD", "ver": 1, "pat": "altld", "fields": True},
-    {"prof": "HQ", "ver": 1, "pat": "any", "fields": False},
-    {"prof": "LD", "ver": 2, "pat": "nomix", "fields": False},
+    {"prof": "HQ", "ver": 3, "pat": "nomix", "fields": True, "sx": 2},
+    {"prof": "LD", "ver": 3, "pat": "any", "fields": False, "sx": 1},
+    {"prof": "HQ", "ver": 2, "pat": "althq", "fields": False, "sx": 2},
+    {"prof": "LD", "ver": 1, "pat": "altld", "fields": True, "sx": 1},
+    {"prof": "HQ", "ver": 1, "pat": "any", "fields": False, "sx": 2},
+    {"prof": "LD", "ver": 2, "pat": "nomix", "fields": False, "sx": 2},
 ]
 
 _installed = False
@@ -57,7 +57,7 @@ def install_permissive_levels():
 
 
 def cfg_tla(c):
-    return '[prof |-> "%s", ver |-> %d, pat |-> "%s", fields |-> %s]' % (c["prof"], c["ver"], c["pat"], "TRUE" if c["fields"] else "FALSE")
+    return '[prof |-> "%s", ver |-> %d, pat |-> "%s", fields |-> %s, sx |-> %d]' % (c["prof"], c["ver"], c["pat"], "TRUE" if c["fields"] else "FALSE", c.get("sx", 2))
 
 
 def write_mc_module(cfgs, name="ValidatorMC", base="Validator"):
@@ -70,7 +70,8 @@ def write_mc_module(cfgs, name="ValidatorMC", base="Validator"):
 
 def concretise(cfg, hist, S=S):
     """abstract history (list of steps with key 'u') -> list of vc2bytes unit dicts"""
-    f = vb.Fmt(profile=cfg["prof"], version=cfg["ver"], level=LEVEL_FOR_PAT[cfg["pat"]], fields=bool(cfg["fields"]), slices_x=S)
+    sx = cfg.get("sx", S)
+    f = vb.Fmt(profile=cfg["prof"], version=cfg["ver"], level=LEVEL_FOR_PAT[cfg["pat"]], fields=bool(cfg["fields"]), slices_x=sx, slices_y=S // sx)
     units = []
     c = None
     recv = 0
@@ -112,6 +113,8 @@ def concretise(cfg, hist, S=S):
             x, y = recv % f.slices_x, recv // f.slices_x
             if u["off"] == "bad":
                 x += 1
+            elif u["off"] == "alias":
+                x, y = recv, 0
             d["code"] = vb.PC_LD_FRAG if u["prof"] == "LD" else vb.PC_HQ_FRAG
             d["payload"] = vb.fragmentn_payload(f, u["prof"], pn, u["cnt"], x, y)
             recv += u["cnt"]
